@@ -133,63 +133,43 @@ def check_tree(P, R):
         t = lp.test
         gt1 = isinstance(t, ast.Compare) and len(t.ops) == 1 and H.is_len(t.left) and ((isinstance(t.ops[0], ast.Gt) and const_value(t.comparators[0]) == 1) or (isinstance(t.ops[0], ast.GtE) and const_value(t.comparators[0]) == 2) or (isinstance(t.ops[0], ast.NotEq) and const_value(t.comparators[0]) == 1))
         R.check(gt1, "COVER.tree-loop", g.key, f"while {src(t)}", "reduces until one element is left", "the pairwise reduction does not run until a single element is left", lp.lineno)
-        # ---- the new list: comprehension bound to the list, or a fresh list appended in a for loop and bound at the end ------
-        pairs = []  # (combining call node, loop variable, range expr, has filter)
-        new_name = None
-        rebinding = None
-        for st, t_, v, k in stores(lp):
-            if isinstance(t_, ast.Name) and t_.id == lst and isinstance(v, ast.ListComp) and len(v.generators) == 1:
-                gnr = v.generators[0]
-                pairs.append((v.elt, gnr.target.id if isinstance(gnr.target, ast.Name) else None, gnr.iter, bool(gnr.ifs)))
-                new_name, rebinding = lst, st
-            if isinstance(t_, ast.Name) and t_.id == lst and isinstance(v, ast.Name) and v.id != lst:
-                new_name, rebinding = v.id, st
-        if new_name is not None and new_name != lst:
-            for fl in [n for n in walk_no_nested(lp) if isinstance(n, ast.For)]:
-                for c in walk_no_nested(fl):
-                    if isinstance(c, ast.Call) and isinstance(c.func, ast.Attribute) and c.func.attr == "append" and src(c.func.value) == new_name and c.args:
-                        pairs.append((c.args[0], fl.target.id if isinstance(fl.target, ast.Name) else None, fl.iter, False))
-            # a comprehension bound to the new name first
-            for st, t_, v, k in stores(lp):
-                if isinstance(t_, ast.Name) and t_.id == new_name and isinstance(v, ast.ListComp) and len(v.generators) == 1:
-                    gnr = v.generators[0]
-                    pairs.append((v.elt, gnr.target.id if isinstance(gnr.target, ast.Name) else None, gnr.iter, bool(gnr.ifs)))
-        if not pairs or rebinding is None:
-            R.undecided("COVER.tree", g.key, "pairwise round", "the construction of the next round's list was not recognised")
+        # ---- every round consumes every element exactly once (COVER engine: affine tiling of the round's index runs) ----------
+        from ..engines import cover as _cover
+        v_, why_ = _cover.check_rounds(P, g, lp, lst)
+        if v_ == "ok":
+            R.ok("COVER.tree-cover", g.key, f"rounds of `while {src(t)}`", why_, lp.lineno)
+        elif v_ == "violation":
+            R.violation("COVER.tree-cover", g.key, f"rounds of `while {src(t)}`", f"a round of the pairwise reduction does not pass every element on exactly once: {why_}; one partition's statistics never reach (or reach twice) the M-step", lp.lineno)
+        else:
+            R.undecided("COVER.tree", g.key, "pairwise round", why_ or "the construction of the next round's list was not recognised")
             continue
-        for elt, i, rng, filt in pairs:
-            ok_rng = isinstance(rng, ast.Call) and src(rng.func) == "range" and len(rng.args) == 1 and H.is_half(rng.args[0]) and not filt
-            R.check(ok_rng, "COVER.tree-range", g.key, f"for {i} in {src(rng)}", "i ranges over [0, len//2)", "the pair index does not range over exactly [0, len//2)", elt.lineno)
-            kind, fexpr, args, kws = P.peel_call(elt, g) if isinstance(elt, ast.Call) else (None, None, [], [])
-            addop = fexpr is not None and (P.dotted(fexpr, g) or "") in ("operator.add",)
-            R.check(addop and kind == "task", "COVER.tree-op", g.key, src(elt)[:70], "pairs are combined with the non-mutating +", "pairs are not combined with operator.add in a task", elt.lineno)
-            idx = [H.affine(a.slice, i) for a in args if isinstance(a, ast.Subscript) and src(a.value) == lst]
-            got = sorted(x for x in idx if x is not None)
-            R.check(len(idx) == 2 and got == [(1, 0, 0, 0), (1, 1, 0, 0)], "COVER.tree-pairs", g.key, f"pairs {[src(a) for a in args]}", "L[i] + L[len//2 + i]: covers [0, 2*(len//2)) exactly once", f"the paired indices are {[src(a.slice) for a in args if isinstance(a, ast.Subscript)]}: some element is skipped or added twice", elt.lineno)
-        # ---- odd carry: the last element of the *old* list is appended to the new one when the length is odd ----------------
-        carried = False
-        why = "no `if <length is odd>: <new list>.append(<last element of the old list>)`"
-        for n in walk_no_nested(lp):
-            if isinstance(n, ast.If) and H.is_odd_test(n.test):
-                for c in walk_no_nested(n):
-                    if not (isinstance(c, ast.Call) and isinstance(c.func, ast.Attribute) and c.func.attr == "append" and src(c.func.value) == new_name and c.args):
-                        continue
-                    a0 = c.args[0]
-                    cst = du.stmt_of(c)
-                    if H.is_last(a0):
-                        # read in place: must still be the old list, i.e. before the list name is rebound (or the new list has another name)
-                        if new_name != lst and not du.cfg.reach_avoiding(rebinding, cst, {lp}):
-                            carried = True
-                        else:
-                            why = "the last element is read after the list was rebound to the new round"
-                    elif isinstance(a0, ast.Name):
-                        for d in du.reaching(cst, a0.id):
-                            if d.value is not None and H.is_last(d.value) and du.cfg.reach_avoiding(d.stmt, rebinding, {lp}) and not du.cfg.reach_avoiding(rebinding, d.stmt, {lp}):
-                                carried = True
-                        if not carried:
-                            why = "the carried value is not the last element of the list as it was before this round"
-                    # the append must come after the pairs were built (order of the round) - or be to the new list anyway
-        R.check(carried, "COVER.tree-carry", g.key, "odd carry", "the last element is kept when the length is odd", f"with an odd number of partitions the last element is not carried over ({why}): one partition's statistics never reach the M-step", lp.lineno)
+        # ---- pairs are combined with the non-mutating + in a task (the operands are Delayed objects shared with other rounds) ----
+        rd = _cover._Round(P, g, lp, lst)
+        n_op = 0
+        for c in walk_no_nested(lp):
+            if not isinstance(c, ast.Call):
+                continue
+            fx = c.func
+            if isinstance(fx, ast.Name) and not (P.dotted(fx, g) or "").startswith("operator."):
+                ds = rd.defs.get(fx.id) or rd.outer.get(fx.id)
+                if ds and len(ds) == 1:
+                    fx = ds[0]
+            if not rd.is_adder(fx) or not c.args:
+                continue
+            inner = fx.args[0] if isinstance(fx, ast.Call) and src(fx.func).split(".")[-1] == "delayed" and fx.args else None
+            if inner is None and isinstance(fx, ast.Call):
+                continue
+            if inner is None:
+                kind, fexpr, args, kws = P.peel_call(c, g)
+                task, opx = kind == "task", fexpr
+            else:
+                task, opx = True, inner
+            if isinstance(opx, ast.Call):
+                continue
+            n_op += 1
+            addop = (P.dotted(opx, g) or "") in ("operator.add",)
+            R.check(addop and task, "COVER.tree-op", g.key, src(c)[:70], "pairs are combined with the non-mutating + in a task", "pairs are not combined with operator.add in a task", c.lineno)
+        R.floor(f"COVER.tree-op sites ({g.key})", n_op, 1)
         # ---- the root: element 0 after the loop is returned (helper) / reaches the M-step ---------------------------------------
         if via is not None:
             rets = [r for r in walk_no_nested(g.node) if isinstance(r, ast.Return) and r.value is not None]
@@ -420,3 +400,4 @@ def run(P, R, tier):
 
 
 EXPLANATION += ' Also: the halving tree is decided on a normalised form of the loop (length / half expressions, new list by comprehension or appended in a for loop, odd carry taken from the old list), in fit or in a fold helper; (COVER.pairs) neighbour-pairing reductions keep the unpaired element.'
+EXPLANATION += " (COVER.tree-cover) each round of the pairwise tree passes every element on exactly once: the round's index runs (ranges, slices, zip of slices, carried element) tile [0, len) for every length - affine tiling after a parity split, closed forms evaluated for small lengths; no code is executed."
